@@ -26,16 +26,29 @@ type bytesCase struct {
 	Prev []string `json:"prev_hex,omitempty"`
 }
 
-// histOK is set by the byte-input checks: the specification accepts (the metadata of) the input just judged.
-var histOK bool
+// byteHistory is the history of the worker process.
+var byteHistory byteHist
 
-// byteHist remembers what a worker fed to a check before the current input: the last three
-// inputs and the last input the specification accepts.
+// histOK is set by the byte-input checks: the specification accepts (the metadata of) the input just judged.
+var histOK, histPartial bool
+
+// setHist files the verdict of the reference parser for the input just judged.
+func setHist(metaOK, hasVB, hasPal bool, reason string) {
+	histOK = metaOK
+	histPartial = !metaOK && (hasVB || hasPal || strings.HasPrefix(reason, "viewbox") || strings.HasPrefix(reason, "palette") || reason == "chunk length mismatch")
+}
+
+// byteHist remembers what a worker fed to a check before the current input: the last eight
+// inputs and the last input the specification accepts. One history per worker process (a worker
+// serves one check), kept across units: so are the objects of the library.
 type byteHist struct {
-	ring   [3][]byte
+	ring   [8][]byte
 	lastOK []byte
-	cur    []byte
-	unit   string
+	// lastPartial: the last input whose metadata the specification rejects after a chunk body was
+	// entered (a decoder may have stored part of it before it gave up)
+	lastPartial []byte
+	cur         []byte
+	unit        string
 }
 
 // begin makes b the current input and installs the case-with-context provider.
@@ -46,12 +59,17 @@ func (h *byteHist) begin(w *mc.W, b []byte, unit string) {
 
 // end files the current input (ok: the specification accepts it).
 func (h *byteHist) end(ok bool) {
+	if histPartial {
+		h.lastPartial = append(h.lastPartial[:0], h.cur...)
+		histPartial = false
+	}
 	if len(h.cur) > 4096 {
 		*h = byteHist{}
 		return
 	}
 	c := append(h.ring[0][:0], h.cur...) // reuse the oldest copy's storage
-	h.ring[0], h.ring[1], h.ring[2] = h.ring[1], h.ring[2], c
+	copy(h.ring[:], h.ring[1:])
+	h.ring[len(h.ring)-1] = c
 	if ok {
 		h.lastOK = append(h.lastOK[:0], h.cur...)
 	}
@@ -59,6 +77,9 @@ func (h *byteHist) end(ok bool) {
 
 func (h *byteHist) alt() any {
 	var prev []string
+	if h.lastPartial != nil {
+		prev = append(prev, hex.EncodeToString(h.lastPartial))
+	}
 	if h.lastOK != nil {
 		prev = append(prev, hex.EncodeToString(h.lastOK))
 	}
